@@ -17,7 +17,7 @@ import engine_r5 as r5
 PROPS = {
     "C02": {
         "controls": ["PAN-1", "PAN-3", "ERR-1", "PAN-7"],
-        "rules": [("PAN-1", pan.pan1), ("PAN-2", pan.pan2), ("PAN-3", pan.pan3), ("PAN-4", pan.pan4), ("PAN-5", pan.pan5), ("PAN-6", pan.pan6), ("PAN-7", pan.pan7), ("PAN-8", pan.pan8), ("PAN-9", pan.pan9), ("PAN-10", pan.pan10), ("PAN-11", pan.pan11), ("PAN-12", r5.pan12), ("PAN-13", r5.pan13), ("VAR-3", r5.var3), ("SUP-6", sup.sup6), ("ERR-1", err.err1)],
+        "rules": [("PAN-1", pan.pan1), ("PAN-2", pan.pan2), ("PAN-3", pan.pan3), ("PAN-4", pan.pan4), ("PAN-5", pan.pan5), ("PAN-6", pan.pan6), ("PAN-7", pan.pan7), ("PAN-8", pan.pan8), ("PAN-9", pan.pan9), ("PAN-10", pan.pan10), ("PAN-11", pan.pan11), ("PAN-12", r5.pan12), ("PAN-13", r5.pan13), ("PAN-14", r5.pan14), ("VAR-3", r5.var3), ("SUP-6", sup.sup6), ("ERR-1", err.err1)],
         "explanation": "Decides four panic mechanisms whose presence is visible in the shape of the code (each a necessary condition of C02), not termination or "
                        "value-dependent panics. PAN-1: forward liveness of every RefCell guard on MIR plus interprocedural borrow summaries (cells = SubRule fields / "
                        "&RefCell parameters mapped through call sites): no borrow, and no call that may borrow, of a cell while a conflicting guard on it is live. "
@@ -118,7 +118,7 @@ PROPS = {
     },
     "C19": {
         "controls": ["CLI-1"],
-        "rules": [("CLI-1", cli.cli1), ("CLI-4", cli.cli4), ("TAB-7", cli.tab7), ("CLI-6", r5.cli6), ("CLI-7", r5.cli7)],
+        "rules": [("CLI-1", cli.cli1), ("CLI-4", cli.cli4), ("TAB-7", cli.tab7), ("CLI-6", r5.cli6), ("CLI-7", r5.cli7), ("CLI-9", r5.cli9), ("CLI-10", r5.cli10)],
         "explanation": "Decides the wiring and file-format clauses of C19: no call (lib, bin) passes same-typed arguments crosswise to each other's parameters "
                        "(names of arguments vs parameters); in `asca run` the four components of get_input reach asca::run's parameters of the same role and the "
                        "value printed / written is the Ok payload of that call joined by LINE_ENDING; writers and readers of .rsca/.alias/.wsca use the same sigils "
